@@ -22,6 +22,7 @@ LiveSubjects(tbl) == {r.s : r \in {x \in tbl : x.kind = "reg" /\ ~Expired(x.exp)
 TReset == /\ IsEvent("reset")
           /\ now' = 0 /\ epoch' = 1 /\ seeded' = FALSE /\ ts' = 0 /\ rows' = {}
           /\ events' = 0 /\ defects' = 0 /\ resets' = 0 /\ outages' = 0
+          /\ restarts' = 0 /\ srvUpAt' = 0 /\ cliUpAt' = 0
           /\ cseed' = 0 /\ cts' = 0 /\ crows' = {}
           /\ poll' = Idle /\ quiet' = 0 /\ dirty' = FALSE /\ hist' = <<>>
 
@@ -34,6 +35,17 @@ TSubmit == /\ IsEvent("submit")
            /\ LiveSubjects(rows') = ToSet(Ev.live)
 TTick == IsEvent("tick") /\ Tick
 TServerReset == IsEvent("srvreset") /\ ServerReset
+\* a restart of a process on its database: the service row and the tables the new incarnation shows are the model's
+TServerRestart == /\ IsEvent("srvrestart") /\ ServerRestart
+                  /\ ts' = Ev.ts
+                  /\ (IF seeded' THEN epoch' ELSE 0) = Ev.seed
+                  /\ Cardinality(rows') = Ev.n
+                  /\ LiveSubjects(rows') = ToSet(Ev.live)
+TClientRestart == /\ IsEvent("clirestart") /\ ClientRestart
+                  /\ cts' = Ev.cts /\ cseed' = Ev.cseed
+                  /\ Cardinality(crows') = Ev.n
+                  /\ LiveSubjects(crows') = ToSet(Ev.live)
+                  /\ {c.s : c \in {x \in crows' : x.val /\ ~Expired(x.exp)}} = ToSet(Ev.search)
 \* first statement of get: the service row the real server read
 TPollFirst == /\ IsEvent("poll.first") /\ PollFirst
               /\ Ev.first = "discovery_service"
@@ -56,7 +68,7 @@ TValidate == /\ IsEvent("validate")
              /\ LiveSubjects(crows') = ToSet(Ev.live)
              /\ {c.s : c \in {x \in crows' : x.val /\ ~Expired(x.exp)}} = ToSet(Ev.search)
 
-TraceNext == TReset \/ TSubmit \/ TTick \/ TServerReset \/ TPollFirst \/ TPollSecond \/ TApply \/ TValidate
+TraceNext == TReset \/ TSubmit \/ TTick \/ TServerReset \/ TServerRestart \/ TClientRestart \/ TPollFirst \/ TPollSecond \/ TApply \/ TValidate
 TraceInit == Init /\ l = 1 /\ TLCSet(1, 1)
 TraceSpec == TraceInit /\ [][TraceNext]_tvars
 
